@@ -299,7 +299,7 @@ class Scheduler:
         self.current = nxt
         self.sems[nxt].release()
 
-    def run(self, bodies, prefix=(), expect=None, max_points=20000):
+    def run(self, bodies, prefix=(), expect=None, max_points=200000):
         """one complete execution under the given choice prefix (then choice 0 everywhere)"""
         self.install()
         self.n = len(bodies)
